@@ -144,9 +144,15 @@ RULE = ("every recorded strategy step (up to 4 per run, busiest first) of exact 
         "step model with the step's exp/log oracle; non-trivial = distinct step with a non-zero command")
 
 
-def run(tier):
+import contextlib
+
+
+@contextlib.contextmanager
+def prepared(tier, n_fast=None):
+    """configure the per-step strategy correspondence unit (records from the exact-run pool); also used by ./check C09, whose
+    theorems are about the same decision model"""
     sd = C.seed()
-    UNIT.records = sim.pool(sd, tier, strategies=("greedy", "balanced"), n_slow=0)
+    UNIT.records = sim.pool(sd, tier, strategies=("greedy", "balanced"), n_slow=0, n_fast=n_fast)
     UNIT.max_steps_per_run = 3 if tier == "quick" else 12
     UNIT.pred_enabled = True
     old = C.Report.add_violation
@@ -157,9 +163,14 @@ def run(tier):
         old(self, cls, what, inp)
     C.Report.add_violation = add_violation
     try:
-        return corr.standard_run("C10", tier, [UNIT], 0, 0, sim.SIM_TRUSTED + ["exp/log oracle per strategy step"], RULE, search_factor=1)
+        yield UNIT
     finally:
         C.Report.add_violation = old
+
+
+def run(tier):
+    with prepared(tier) as unit:
+        return corr.standard_run("C10", tier, [unit], 0, 0, sim.SIM_TRUSTED + ["exp/log oracle per strategy step"], RULE, search_factor=1)
 
 
 def replay(payload):
